@@ -430,3 +430,4 @@ def run(ctx):
         adhoc.append(fn.loc(c))
   ctx.check(not adhoc, 'C08.funnel', 'gin/config.py', 'no ad-hoc suffix matching on selectors outside SelectorMap',
             'ad-hoc suffix matching on selectors at %s' % adhoc, adhoc[0] if adhoc else 'gin/config.py', instance='no-endswith')
+  ctx.borrow('C15', 'C15.known-first', 'C08.exact-first')     # a known name is never skipped, however it is spelled
